@@ -33,7 +33,7 @@ def gen_fs(rng, tier_thorough=False):
     elif prof == "window":
         w = dict(write=2, deliver=14)
     elif prof == "crash":
-        w = dict(kill=3, start=8, startrace=8, jobkill=4)
+        w = dict(kill=4, start=8, startrace=8, jobkill=4, write=4)
     nsteps = rng.choice([40, 60, 90] if not tier_thorough else [60, 90, 140])
     return dict(kind="fs", total=total, nprocs=nprocs, jobs=jobs, seed=rng.randrange(10 ** 9), nsteps=nsteps,
                 maxkill=dict(crash=3).get(prof, rng.choice([0, 0, 1, 2])), drain=rng.choice([0, 25, 40]),
@@ -82,7 +82,7 @@ def quiescent(obs):
     for pr in obs["procs"]:
         if pr is None:
             continue
-        if pr["watch"] or (pr["obs"] and pr["evq"]):
+        if pr["watch"] or pr.get("armed") or (pr["obs"] and pr["evq"]):
             return False
     for ph, st, orph, _pid in obs["jobs"]:
         if ph in ("creating", "holding", "running"):
@@ -98,6 +98,7 @@ def oracle_fs(sc, res, which):
     out = []
     total = sc["total"]
     dead_obs = False
+    stale_deleted = False   # once a live holding was deleted by a stale watcher, overshoot is its consequence
     reclaimed_release = set()
     for k, st in enumerate(res["steps"]):
         o = st["obs"]
@@ -107,6 +108,12 @@ def oracle_fs(sc, res, which):
                 out.append(("C09:observer-dies:unparsable-token-file",
                             "a filesystem event handler raised %s on a token file that is created but not written "
                             "yet: the watchdog observer thread of that process ends" % st["res"][7:], k))
+        elif st["res"].startswith("raised:ValueError") and st["op"][0] in ("start", "startrace", "acquire", "release") \
+                and k > 0 and any(c < 0 for _, c in res["steps"][k - 1]["obs"]["disk"]):
+            if which == "C09":
+                out.append(("C09:token-bricked-by-half-created-file",
+                            "%s raised ValueError: a scheduler was killed between open() and write() of its token "
+                            "file, the empty file makes _update raise in every process from then on" % (st["op"],), k))
         elif st["res"].startswith("raised"):
             out.append((which + ":exception:" + st["op"][0], "unexpected exception %s in %s" % (st["res"], st["op"]), k))
         disk = dict((n, c) for n, c in o["disk"])
@@ -115,6 +122,16 @@ def oracle_fs(sc, res, which):
             reclaimed_release.add(st["op"][1])   # this process released a holding whose file was already gone
         if st["op"][0] in ("kill", "start"):
             reclaimed_release.discard(st["op"][1])
+        if st["op"][0] == "firedelete" and k > 0:
+            i = st["op"][2]
+            prev = res["steps"][k - 1]["obs"]
+            if prev["jobs"][i][0] in ("creating", "holding", "running") and \
+                    any(n == "j%d.token" % i for n, _ in prev["disk"]) and "j%d.token" % i not in disk:
+                stale_deleted = True
+                out.append((which + ":stale-watcher-deletes-live-token-file",
+                            "a watcher thread that had left the job lock of job %d earlier deleted the token file of "
+                            "its next start (job %s): the job holds %d uncounted"
+                            % (i, prev["jobs"][i][0], sc["jobs"][i]["c"]), k))
         if which == "C08":
             # weighted sum of the holdings recorded in the directory (a file being created stands for
             # the request of its job)
@@ -125,14 +142,15 @@ def oracle_fs(sc, res, which):
                 out.append(("C08:capacity-exceeded-on-disk", "token files hold %d > total %d" % (w, total), k))
             # jobs between launch and exit, by request
             run = sum(sc["jobs"][i]["c"] for i, (ph, _, _, _) in enumerate(o["jobs"]) if ph == "running")
-            if run > total:
+            if run > total and not stale_deleted:
                 out.append(("C08:capacity-exceeded-running", "running jobs hold %d > total %d" % (run, total), k))
             for i, (ph, _, _, _) in enumerate(o["jobs"]):
-                if ph in ("holding", "running") and disk.get("j%d.token" % i, -1) != sc["jobs"][i]["c"]:
+                if ph in ("holding", "running") and disk.get("j%d.token" % i, -1) != sc["jobs"][i]["c"] and not stale_deleted:
                     out.append(("C08:running-job-without-token-file",
                                 "job %d is %s but its token file is missing or wrong" % (i, ph), k))
         if which == "C09":
-            if st["op"][0] == "fire" and "j%d.token" % st["op"][2] in disk:
+            if st["op"][0] in ("fire", "firedelete") and "j%d.token" % st["op"][2] in disk and \
+                    not (st["op"][0] == "fire" and "j%d.token" % st["op"][2] in (o["procs"][st["op"][1]].get("armed") or [])):
                 i = st["op"][2]
                 out.append(("C09:watcher-leaves-token-file",
                             "a watcher thread for the token file of job %d finished (job %s, pid file %s) and the file "
@@ -244,6 +262,10 @@ def g_label(op):
         return "JobKilled %s" % gnat(op[1])
     if k == "startrace":
         return "StartRace %s %s" % (gnat(op[1]), gnat(op[2]))
+    if k == "firedelete":
+        return "FireDelete %s %s" % (gnat(op[1]), gnat(op[2]))
+    if k == "resubmit":
+        return "Resubmit %s %s" % (gnat(op[1]), gnat(op[2]))
     if k == "release":
         return "Release %s %s" % (gnat(op[1]), gnat(op[2]))
     if k == "deliver":
@@ -264,9 +286,10 @@ def g_obs(o):
         if pr is None:
             procs.append("None")
         else:
-            procs.append("(Some (mkPO %s %s %s %s %s))" % (
+            procs.append("(Some (mkPO %s %s %s %s %s %s))" % (
                 gz(pr["avail"]), glist("(%s, %s)" % (g_name(n), gz(c)) for n, c in pr["cache"]), gbool(pr["obs"]),
-                glist(g_event(e) for e in pr["evq"]), glist(g_name(n) for n in pr["watch"])))
+                glist(g_event(e) for e in pr["evq"]), glist(g_name(n) for n in pr["watch"]),
+                glist(g_name(n) for n in pr.get("armed", []))))
     jobs = []
     for ph, st, orph, pid in o["jobs"]:
         stt = "None" if (st is None or ph != "idle") else "(Some %s)" % gbool(st == "OK")
@@ -316,17 +339,26 @@ W4 = dict(kind="fs", total=1, nprocs=2, jobs=[dict(p=0, c=1), dict(p=1, c=1)],
           steps=[["start", 0], ["acquire", 0, 0], ["write", 0], ["launch", 0], ["kill", 0], ["end", 0, 0], ["startrace", 1, 0]])
 
 
+W5 = dict(kind="fs", total=1, nprocs=2, jobs=[dict(p=0, c=1), dict(p=1, c=1)],
+          steps=[["start", 0], ["start", 1], ["acquire", 0, 0], ["kill", 0], ["deliver", 1, 0], ["start", 0]])
+W6 = dict(kind="fs", total=1, nprocs=2, jobs=[dict(p=0, c=1), dict(p=1, c=1)],
+          steps=[["start", 0], ["start", 1], ["acquire", 0, 0], ["write", 0], ["deliver", 1, 0], ["release", 0, 0],
+                 ["fire", 1, 0], ["acquire", 0, 0], ["write", 0], ["launch", 0], ["firedelete", 1, 0], ["acquire", 1, 1],
+                 ["write", 1], ["launch", 1]])
+
+
 def detect_variant(driver, scratch):
-    """(parse_fix, count_fix, notify_fix, startup_recount_fix) of the tree under test; a probe that cannot be run as scripted
+    """(parse_fix, count_fix, notify_fix, startup_recount_fix, half_created_fix, watcher_fix) of the tree under test; a probe that cannot be run as scripted
     (the tree behaves differently for another reason) is inconclusive and counts as repaired: the
     correspondence and the oracle then decide."""
     import copy
-    scs = [copy.deepcopy(W1), copy.deepcopy(W2), copy.deepcopy(W3), copy.deepcopy(W4)]
+    scs = [copy.deepcopy(W1), copy.deepcopy(W2), copy.deepcopy(W3), copy.deepcopy(W4), copy.deepcopy(W5), copy.deepcopy(W6)]
+    scs[5]["steps"] = scs[5]["steps"][:7]
     scs[0]["steps"] = scs[0]["steps"][:4]
     scs[1]["steps"] = scs[1]["steps"][:11]
     scs[2]["steps"] = scs[2]["steps"][:5]
-    r1, r2, r3, r4 = run_batches(driver, scs, scratch, per=1, timeout=40)
-    v_parse = v_count = v_notify = v_watch = True
+    r1, r2, r3, r4, r5, r6 = run_batches(driver, scs, scratch, per=1, timeout=40)
+    v_parse = v_count = v_notify = v_watch = v_empty = v_fire = True
     try:
         if len(r1["steps"]) == 4:
             v_parse = not r1["steps"][3]["res"].startswith("raised")
@@ -336,13 +368,17 @@ def detect_variant(driver, scratch):
             v_count = r3["steps"][4]["obs"]["procs"][1]["avail"] != 2
         if len(r4["steps"]) == 7:
             v_watch = r4["steps"][6]["obs"]["procs"][1]["avail"] != 0
+        if len(r5["steps"]) == 6:
+            v_empty = not r5["steps"][5]["res"].startswith("raised")
+        if len(r6["steps"]) == 7:
+            v_fire = not r6["steps"][6]["obs"]["procs"][1]["armed"]
     except Exception:  # noqa
         pass
-    return (v_parse, v_count, v_notify, v_watch)
+    return (v_parse, v_count, v_notify, v_watch, v_empty, v_fire)
 
 
 def checker_name(variant):
-    return "(check_case_v (mkV %s %s %s %s))" % tuple(gbool(b) for b in variant)
+    return "(check_case_v (mkV %s %s %s %s %s %s))" % tuple(gbool(b) for b in variant)
 
 
 # --------------------------------------------------------------------------- shrinking
@@ -396,12 +432,9 @@ def run_check(c, which):
     c.props()
     scratch = c.scratch()
     variant = detect_variant(driver, scratch)
-    c.extra["tree_variant"] = dict(parse_fix=variant[0], count_fix=variant[1], notify_fix=variant[2], startup_recount_fix=variant[3])
-    if which == "C09":
-        # the theorems of props/C09.v other than the refutations are about the repaired code
-        c.obligations.append(dict(name="tie:tree-behaves-like-the-repaired-model", kind="tie", ok=all(variant),
-                                  detail="" if all(variant) else
-                                  "the tree behaves like the pinned code on the witness schedules: %s" % (c.extra["tree_variant"],)))
+    c.extra["tree_variant"] = dict(parse_fix=variant[0], count_fix=variant[1], notify_fix=variant[2], startup_recount_fix=variant[3],
+                                   half_created_fix=variant[4], watcher_under_job_lock_fix=variant[5])
+    missing_repairs = [n for n, v in zip(("parse", "count", "notify", "startup", "half_created", "watcher"), variant) if not v]
     fs_cases, in_cases = [], []
     if c.replay:
         rp = json.load(open(c.replay))["replay"]
@@ -418,10 +451,15 @@ def run_check(c, which):
         if gold.exists():
             for g in json.load(open(gold)):
                 (fs_cases if g.get("kind", "fs") == "fs" else in_cases).append(g)
-        nfs = 300 if quick else 2600
+        nfs = 240 if quick else 2200
         nin = 60 if quick else 400
     for _ in range(nfs):
         fs_cases.append(gen_fs(c.rng, not quick))
+    for sc in fs_cases:
+        if sc.get("steps") is None:
+            # on a tree without fixes/C09-4 a kill inside the create window bricks the token: there the
+            # crash point is only exercised by the witness schedule W5 (golden), not by the random ones
+            sc["killc"] = bool(variant[4])
     for _ in range(nin):
         in_cases.append(gen_inproc(c.rng))
 
@@ -483,6 +521,21 @@ def run_check(c, which):
             sc2.pop("scratch", None)
             sc2["ops"] = sc["ops"][:k + 1]
             c.violation(key, what, dict(scenario=sc2, found_at_step=k))
+
+    # the theorems other than the refutations are about the repaired code (C08: the repaired watcher): every
+    # repair the tree lacks must have been reported above with a failing input (VIOLATION / KNOWN-FINDING)
+    reported = set(v["key"] for v in c.violations)
+    need = dict(parse=["C09:observer-dies:unparsable-token-file"], count=["C09:idle-available-exceeds-total"],
+                notify=["C09:waiting-job-fits-at-quiescence:release-after-reclaim"],
+                startup=["C09:idle-available-below-total", "C09:waiting-job-fits-at-quiescence:observer-alive"],
+                half_created=["C09:token-bricked-by-half-created-file"],
+                watcher=[which + ":stale-watcher-deletes-live-token-file"])
+    relevant = missing_repairs if which == "C09" else [m for m in missing_repairs if m == "watcher"]
+    silent = [m for m in relevant if not any(k in reported for k in need[m])]
+    if not c.replay:
+        c.obligations.append(dict(name="tie:tree-behaves-like-the-repaired-model", kind="tie", ok=not silent,
+                                  detail="" if not silent else "the tree lacks the repairs %s and no failing input "
+                                  "was produced for them" % (silent,)))
 
     # ---- correspondence inside Coq
     cases = list(zip(fs_cases, res_fs))
